@@ -189,7 +189,18 @@ impl Lzma2Decoder {
         let mut taken = input.take(packed_size);
         let mut rangecoder = rangecoder::RangeDecoder::new(&mut taken)
             .map_err(|e| error::Error::LzmaError(format!("LZMA input too short: {}", e)))?;
-        self.lzma_state.process(accum, &mut rangecoder)
+        self.lzma_state.process(accum, &mut rangecoder)?;
+
+        // The chunk must use up its declared compressed size: leftover bytes would
+        // otherwise be misread as the control byte of the next chunk.
+        if taken.limit() != 0 {
+            return Err(error::Error::LzmaError(format!(
+                "LZMA2 chunk declares {} compressed bytes but {} of them are unused",
+                packed_size,
+                taken.limit()
+            )));
+        }
+        Ok(())
     }
 
     fn parse_uncompressed<R, W>(
